@@ -1,4 +1,5 @@
 """C20 — Cache.once computes each key at most once under concurrency."""
+import json
 import os
 from lib.vlib import *
 
@@ -26,7 +27,16 @@ META = {
                   "call once on another cache using the thread they were given (depth <= 2, own value or pass-through "
                   "of the nested result/error) next to direct callers, forces the 'second caller arrives while the "
                   "callable runs' interleaving with gated callables, and checks and replays every cache's history "
-                  "separately.",
+                  "separately.  Lifetime of a cache: the theorems are for every number of keys and calls (entries only grow: "
+                  "cache_invariant; stored_key_is_never_recomputed: once a key has an entry, no later step of any schedule "
+                  "invokes a callable for it, its entry keeps its value and every later return for it carries that value, "
+                  "however many other keys are stored or calls fail afterwards).  The scale family of the harness takes "
+                  "real caches there: 5 .. 2.6e5 distinct keys (thorough: .. 2^20+1; ladder of 2^j+1, 10^j+1 and random "
+                  "sizes between), up to ~6e5 calls on one cache, thousands of hits on one key, ~1000 failed invocations "
+                  "on one key before its success, 1-16 goroutines, access patterns fill/revisit-all/extend, sliding lags, "
+                  "hot and cold keys, failure storms, random; per-key oracles evaluated online on every call and on the "
+                  "final entries; the histories short enough are replayed by the model in Coq, a failure is re-executed "
+                  "sequentially and reduced by delta debugging to a concrete call list.",
     "level_note": "Trusted: Coq kernel; sync.RWMutex is modelled as (readers, writer) with RLock enabled iff no writer "
                   "and Lock iff no writer and no readers (a superset of Go's behaviours); the Go scheduler only "
                   "produces some interleavings, the theorems cover all of them for the model; re-entrant callables "
@@ -124,10 +134,18 @@ def run(ctx):
     n = int(os.environ.get("VERIF_C20_N", "600" if ctx.quick() else "20000"))
     # nested family (callers inside another cache's callable, 2-3 caches): scenario ids n .. n+nn-1
     nn = int(os.environ.get("VERIF_C20_NESTED", "240" if ctx.quick() else "4000"))
+    # scale family (lifetime of a cache: many keys, many calls, many failures): scenario ids n+nn .. n+nn+ns-1
+    ns = int(os.environ.get("VERIF_C20_SCALE", "34" if ctx.quick() else "110"))
+    scale_maxk = int(os.environ.get("VERIF_C20_SCALE_MAXK", "262145" if ctx.quick() else "1048577"))
+    scale_budget = int(os.environ.get("VERIF_C20_SCALE_BUDGET", "60000" if ctx.quick() else "400000"))
+    scale_replay = int(os.environ.get("VERIF_C20_SCALE_REPLAY", "9000" if ctx.quick() else "16000"))
     out = os.path.join(ctx.tmp, "c20.tsv")
-    env = {"VERIF_OUT": out, "VERIF_N": str(n), "VERIF_C20_NESTED": str(nn), "VERIF_SEED": str(ctx.seed)}
+    env = {"VERIF_OUT": out, "VERIF_N": str(n), "VERIF_C20_NESTED": str(nn), "VERIF_SEED": str(ctx.seed),
+           "VERIF_C20_SCALE": str(ns), "VERIF_C20_SCALE_MAXK": str(scale_maxk),
+           "VERIF_C20_SCALE_BUDGET": str(scale_budget), "VERIF_C20_SCALE_REPLAY": str(scale_replay)}
     rc, o = ctx.go_overlay_test("", {"zz_verif_c20_test.go": os.path.join(HARNESS, "overlay/root/zz_verif_c20_test.go"),
-                                     "zz_verif_c20_nested_test.go": os.path.join(HARNESS, "overlay/root/zz_verif_c20_nested_test.go")},
+                                     "zz_verif_c20_nested_test.go": os.path.join(HARNESS, "overlay/root/zz_verif_c20_nested_test.go"),
+                                     "zz_verif_c20_scale_test.go": os.path.join(HARNESS, "overlay/root/zz_verif_c20_scale_test.go")},
                                 "^TestVerifC20$", env)
     if rc != 0 or not os.path.exists(out):
         ctx.log(o[-3000:])
@@ -140,6 +158,9 @@ def run(ctx):
     oracles = []
     nested_input = {}   # raw scenario id (>= n) -> readable description of the whole nested scenario
     nested_ended = set()
+    scale_stats = {}    # raw scenario id (>= n+nn) -> measured numbers of the scale scenario
+    scale_input = {}    # raw scenario id -> readable description
+    scale_ended = set()
     for line in open(out):
         f = line.rstrip("\n").split("\t")
         if f[0] == "ORACLE":
@@ -148,6 +169,12 @@ def run(ctx):
             scen[int(f[1])] = f
         elif f[0] == "N":
             nested_input[int(f[1])] = f[2]
+        elif f[0] == "SC":
+            scale_stats[int(f[1])] = json.loads(f[2])
+        elif f[0] == "SCIN":
+            scale_input[int(f[1])] = f[2]
+        elif f[0] == "END" and int(f[1]) >= n + nn:
+            scale_ended.add(int(f[1]))
         elif f[0] == "END" and int(f[1]) >= n:
             nested_ended.add(int(f[1]))
     ids = sorted(scen)
@@ -159,6 +186,7 @@ def run(ctx):
     raced_total = 0
     raced_scen = 0
     PROJ = 500000       # ids of the per-cache projections of the nested family: PROJ + 4*j + cache
+    SCALE = 700000      # ids of the replayable histories of the scale family: SCALE + j
     nst = {"scenarios": 0, "caches": {}, "max_nesting_depth": {}, "family": {},
            "cache_histories_replayed": 0,
            "invocations_by_a_caller_inside_another_caches_callable": 0,
@@ -185,11 +213,11 @@ def run(ctx):
         bump(dist["failing_callables"], "0" if nf == 0 else "all" if nf == sum(len(g) for g in plan) else "some")
         bump(dist["mode"], f[2])
         bump(dist["invocations_observed"], min(sum(1 for e in events if e[0] == "e"), 8))
-        kinds = f[10].split(",") if len(f) > 10 else []
+        kinds = f[10].split(",") if len(f) > 10 and i < SCALE else []
         for kd in kinds:
             bump(dist["value_kind_of_planned_calls"], kd)
         bump(dist["key_style"], f[11] if len(f) > 11 else "?")
-        for sh in (f[12].split(",") if len(f) > 12 else []):
+        for sh in (f[12].split(",") if len(f) > 12 and i < SCALE else []):
             bump(dist["callable_shape_of_planned_calls"], sh)
         # a successful invocation only tests "stored and found again" if somebody asks for the key afterwards
         flat = [(g, ci) for g, cs in enumerate(plan) for ci in range(len(cs))]
@@ -207,7 +235,7 @@ def run(ctx):
         if r:
             raced_scen += 1
             distinct.add((f[5], f[6]))
-        if i >= PROJ and len(f) > 18:
+        if PROJ <= i < SCALE and len(f) > 18:
             j = (i - PROJ) // 4
             if j not in nested_seen:
                 nested_seen.add(j)
@@ -224,6 +252,30 @@ def run(ctx):
     dist["racing_calls"] = raced_total
     dist["nested_family"] = nst
     n_base_cases = sum(1 for i in ids if i < PROJ)
+    n_scale_cases = sum(1 for i in ids if i >= SCALE)
+    scl = {"scenarios": len(scale_stats), "pattern": {}, "goroutines": {}, "distinct_keys_of_the_scenarios": [],
+           "calls_total": 0, "events_total": 0, "max_distinct_keys_in_one_cache": 0, "max_calls_on_one_cache": 0,
+           "max_calls_on_one_key": 0, "max_failed_invocations_on_one_key_before_its_success": 0,
+           "histories_replayed_by_the_model": n_scale_cases, "max_keys_of_a_replayed_history": 0,
+           "entries_len_equals_keys_with_a_successful_invocation": 0}
+    for sid in sorted(scale_stats):
+        st = scale_stats[sid]
+        bump(scl["pattern"], st["pattern"])
+        bump(scl["goroutines"], st["goroutines"])
+        scl["distinct_keys_of_the_scenarios"].append(st["keys"])
+        scl["calls_total"] += st["calls"]
+        scl["events_total"] += st["events"]
+        scl["max_distinct_keys_in_one_cache"] = max(scl["max_distinct_keys_in_one_cache"], st["keys_stored"])
+        scl["max_calls_on_one_cache"] = max(scl["max_calls_on_one_cache"], st["calls"])
+        scl["max_calls_on_one_key"] = max(scl["max_calls_on_one_key"], st["max_calls_on_one_key"])
+        scl["max_failed_invocations_on_one_key_before_its_success"] = max(
+            scl["max_failed_invocations_on_one_key_before_its_success"], st["max_failed_invocations_on_one_key"])
+        if st["replayed_in_coq"]:
+            scl["max_keys_of_a_replayed_history"] = max(scl["max_keys_of_a_replayed_history"], st["keys"])
+        if st["entries_len"] == st["keys_stored"]:
+            scl["entries_len_equals_keys_with_a_successful_invocation"] += 1
+    scl["distinct_keys_of_the_scenarios"].sort()
+    dist["scale_family"] = scl
 
     ctx.coverage["evaluations"] = len(cases)
     ctx.coverage["distinct_nontrivial"] = len(distinct)
@@ -240,16 +292,26 @@ def run(ctx):
                             "18 enumerated plans + random ones; gated callables wait for a second caller of their key; every "
                             "cache's history is checked by the single-cache oracles and replayed by the single-cache model, "
                             "cf. theorem nested_projection)"
-                            % (len(cases), n_base_cases, nst["scenarios"]))
+                            " + %d scale scenarios (lifetime of one cache: %d..%d distinct keys, %d calls in all, up to %d calls "
+                            "on one key and %d failed invocations on one key; patterns fill_revisit on every ladder size, "
+                            "sliding_lags, hot_cold, fail_storm, random; oracles online per call and on the final entries; "
+                            "%d of them short enough for the replay by the model and counted in the histories above, cf. theorem "
+                            "stored_key_is_never_recomputed)"
+                            % (len(cases) , n_base_cases, nst["scenarios"], scl["scenarios"],
+                               min(scl["distinct_keys_of_the_scenarios"] or [0]), max(scl["distinct_keys_of_the_scenarios"] or [0]),
+                               scl["calls_total"], scl["max_calls_on_one_key"],
+                               scl["max_failed_invocations_on_one_key_before_its_success"], n_scale_cases))
     ctx.coverage["exhaustive"] = False
     ctx.coverage["correspondence"]["distribution"] = dist
-    ctx.add_samples([[scen[i][2], scen[i][5], scen[i][6], scen[i][7]] for i in ids[12:15] + ids[-2:]])
+    ctx.add_samples([[scen[i][2], scen[i][5], scen[i][6], scen[i][7]] for i in ids[12:15] + [q for q in ids if q < SCALE][-2:]])
 
     for f in oracles:
         sid = int(f[2]) if len(f) > 2 and f[2].lstrip("-").isdigit() else -1
         s = scen.get(sid)
         nested = None
-        if sid >= PROJ and s and len(s) > 13:
+        if n + nn <= sid < PROJ:
+            continue        # scale family: reported per scenario below
+        if PROJ <= sid < SCALE and s and len(s) > 13:
             nested = s[13]
         elif sid in nested_input:
             nested = nested_input[sid]
@@ -288,10 +350,53 @@ def run(ctx):
                               "(plan: per goroutine key:value|f; history: c=call b/e=callable begin/end r=return)"
                               % (ctx.seed, sid)})
 
+    # scale family: one violation per failing scenario (smallest first, at most 3 in full)
+    by_scen = {}
+    for f in oracles:
+        sid = int(f[2]) if len(f) > 2 and f[2].lstrip("-").isdigit() else -1
+        if n + nn <= sid < PROJ:
+            by_scen.setdefault(sid, []).append(f)
+    for rank, sid in enumerate(sorted(by_scen)):
+        fs = by_scen[sid]
+        st = scale_stats.get(sid, {})
+        if rank >= 3:
+            continue
+        try:
+            detail = json.loads(fs[0][3]) if len(fs[0]) > 3 else {}
+        except ValueError:
+            detail = {"detail": fs[0][3:]}
+        names = sorted({f[1] for f in fs})
+        ctx.violation("implementation violates C20 oracle%s %s (scale scenario %d: %s, %s distinct keys)"
+                      % ("s" if len(names) > 1 else "", ", ".join(names), sid, st.get("pattern", "?"), st.get("keys", "?")),
+                      {"oracles": names, "scenario": sid,
+                       "input": detail.pop("input", None) or scale_input.get(sid),
+                       "failing_input": detail.get("sequential_reproducer"),
+                       "detail": detail, "measured": st,
+                       "other_failing_scale_scenarios": [
+                           {"scenario": q, "pattern": scale_stats.get(q, {}).get("pattern"),
+                            "keys": scale_stats.get(q, {}).get("keys"), "oracles": sorted({f[1] for f in by_scen[q]})}
+                           for q in sorted(by_scen) if q != sid][:30] if rank == 0 else "see the first scale violation",
+                       "value_code": "values are the ints the callables return; -1 = the callable fails / once returned an error",
+                       "how": "VERIF_SEED=%d VERIF_C20_N=%d VERIF_C20_NESTED=%d VERIF_C20_SCALE=%d VERIF_C20_SCALE_MAXK=%d "
+                              "VERIF_C20_SCALE_BUDGET=%d: scenario id %d = index %d of c20GenScale in "
+                              "harness/overlay/root/zz_verif_c20_scale_test.go (the plan is a function of seed and index)"
+                              % (ctx.seed, n, nn, ns, scale_maxk, scale_budget, sid, sid - n - nn)})
+
     shard = 400
     exprs = []
-    for a in range(0, len(cases), shard):
-        items = ["(%s, %s)" % (cq_N(i), to_case(plan, events, final)) for i, plan, events, final in cases[a:a + shard]]
+    small = [c for c in cases if c[0] < SCALE]
+    for a in range(0, len(small), shard):
+        items = ["(%s, %s)" % (cq_N(i), to_case(plan, events, final)) for i, plan, events, final in small[a:a + shard]]
+        exprs.append("mismatches [\n" + ";\n".join(items) + "]")
+    # the (long) histories of the scale family: shards of about 6000 events
+    items, weight = [], 0
+    for i, plan, events, final in [c for c in cases if c[0] >= SCALE]:
+        items.append("(%s, %s)" % (cq_N(i), to_case(plan, events, final)))
+        weight += len(events)
+        if weight > 6000:
+            exprs.append("mismatches [\n" + ";\n".join(items) + "]")
+            items, weight = [], 0
+    if items:
         exprs.append("mismatches [\n" + ";\n".join(items) + "]")
     # negative controls: perturbed copies of real cases that the model must REJECT (keeps the acceptance
     # pipeline honest: rendering, evaluation and result parsing are exercised on known-bad inputs every run)
@@ -327,9 +432,9 @@ def run(ctx):
     ctx.coverage["correspondence"]["cases"] = len(cases)
     ctx.coverage["correspondence"]["mismatches"] = len(mism)
     ctx.log("scenarios=%d racing=%d mismatches=%d oracle_failures=%d" % (len(cases), raced_scen, len(mism), len(oracles)))
-    if (n_base_cases < n or len(nested_ended) < nn) and not oracles:
-        ctx.violation("harness produced %d of %d scenarios and %d of %d nested scenarios"
-                      % (n_base_cases, n, len(nested_ended), nn),
+    if (n_base_cases < n or len(nested_ended) < nn or len(scale_ended) < ns or len(scale_stats) < ns) and not oracles:
+        ctx.violation("harness produced %d of %d scenarios, %d of %d nested scenarios and %d of %d scale scenarios"
+                      % (n_base_cases, n, len(nested_ended), nn, min(len(scale_ended), len(scale_stats)), ns),
                       {"theorem_or_correspondence": "C20 correspondence harness (cache)", "output": o[-2000:]},
                       found_input=False)
     if mism and not oracles:
